@@ -217,6 +217,8 @@ func runC18(p *Prog, r *Report) {
 	r.OK("own code/emission vocabulary", "", fmt.Sprintf("%d emission chains scanned, %d denied constructs", len(chains), nDeny))
 	pkgLevelStateRule(p, r, "C18.R5")
 	armEffectRule(p, r, "C18.R6", "config.parseConverterLine", "output:package", "OutputPackagePath", "OutputPackageName")
+	definitionPackageRule(p, r, "C18.R8")
+	boolSettingRule(p, r, "C18.R7", "wrapErrors", "`wrapErrors no` switches wrapping (and with it the fmt import) off again: evaluated with the command fixed to wrapErrors and parse.Bool fixed to v, config.parseCommon cannot return success with WrapErrors still !v (v = true, false) — an inherited `wrapErrors` is overridden by the inner level", "WrapErrors")
 }
 
 func appendGeneratedChainOK(p *Prog, c *Chain) (bool, string) {
